@@ -1,6 +1,8 @@
 import FrappyProofs.Lemmas.Match
+import FrappyProofs.Lemmas.MatchAcc
 import FrappyProofs.Lemmas.Timed
 import FrappyProofs.Lemmas.Shutdown
+import FrappyProofs.Lemmas.Conn
 import FrappyModel.Generated.C11
 /-
 C11 — property theorems (nothing but property theorems and their non-vacuity examples).
@@ -140,6 +142,45 @@ theorem no_parking_unlocked_fails :
 theorem traceF19_refused : refusedAt request2reply true traceF19 = some 10 := by
   decide +kernel
 
+/-! ## no_lost_request -/
+
+section
+variable {α : Type} [DecidableEq α]
+
+/-- No request is lost, and `active_requests` never holds two entries under one key: in every reachable state of the
+repaired client every request a caller has queued is still queued, held by the tx thread, parked, filed, popped by the
+rx thread (about to be delivered or requeued) or taken by a `disconnect` — or its caller has been answered, released
+or has run into its time-out.  In particular the clean-up of a timed-out request removes that request only (the
+rx thread searches `active_requests` by identity), never the request of another caller filed under the same key.
+Any table, any number of callers, any interleaving. -/
+theorem no_lost_request (tbl : List (α × α)) (s : St α) (h : Reachable tbl true s) :
+    NoLostRequest s ∧ (s.active.map (·.1)).Nodup :=
+  ⟨(reachable_acc h).acc, (reachable_acc h).nodup⟩
+
+end
+
+/-- non-vacuity: request 0 is filed and never answered, request 1 (same key) is parked behind it; 0 times out, the
+clean-up removes 0 — and only 0 — and requeues 1, which is then transmitted -/
+example : checkRun request2reply true
+    [.put (rd "m:p"), .put (rd "m:p"), .txGet, .txTest false, .txApply, .txSend, .txGet, .txTest true, .txApply,
+     .timeout 0, .rxCleanPop, .rxCleanup (some 0) [1], .rxRequeue, .txGet, .txTest false, .txApply, .txSend]
+    (fun s => noLostB s && s.nextId == 2 && s.active.map (·.2.id) == [1] && s.timedOut == [0]
+      && s.wireOut.map (·.id) == [0, 1]) = true := by
+  decide +kernel
+
+/-- what the monitor sees when a clean-up goes by key instead of by identity: request 0 times out, its late reply is
+still handed over, request 1 (same key) is filed, and then the clean-up of 0 pops the entry of 1.  The model refuses
+that label (index 16), and in the observed state after it request 1 is lost: nowhere in the client, its caller still
+waiting. -/
+def traceCleanupByKey : List (Label String) :=
+  [.put (rd "m:p"), .txGet, .txTest false, .txApply, .txSend, .timeout 0,
+   .peerEmit false "reply" (some "m:p") false (some 0), .rxRead, .rxMatch (some 0) [], .rxSetEvent,
+   .put (rd "m:p"), .txGet, .txTest false, .txApply, .txSend, .rxCleanPop, .rxCleanup (some 1) []]
+
+example : refusedAt request2reply true traceCleanupByKey = some 16
+    ∧ firstLost (observe request2reply {} traceCleanupByKey) 0 = some 17 := by
+  decide +kernel
+
 /-! ## disconnect_releases_all -/
 
 section
@@ -157,6 +198,44 @@ theorem disconnect_releases_all (tbl : List (α × α)) (s : St α) (_h : Reacha
   drain_all s ht hr
 
 end
+
+section
+variable {α : Type} [DecidableEq α]
+
+/-- … and then nobody is left waiting: with `no_lost_request`, after that `disconnect()` *every* request ever queued —
+not only those found in the three containers — has its caller answered, released or timed out.  (Hypotheses: the
+workers hold nothing at that moment — no entry between `txq` and filing, none between `active_requests` and its
+event, none between `pending` and `txq`; what they hold otherwise is released by `disconnect()`'s final drain, which
+the shutdown model covers.) -/
+theorem disconnect_leaves_nobody_waiting (tbl : List (α × α)) (s : St α) (h : Reachable tbl true s)
+    (ht : s.txTest = none) (hr : s.relHold = []) (h1 : s.txHold = none) (h2 : s.rxSet = none) (h3 : s.rxHold = []) :
+    ∃ s', run tbl true s (drainLabels s) 0 = .ok s' ∧
+      ∀ i, i < s'.nextId → i ∈ s'.delivered.map (·.1.id) ∨ i ∈ s'.released ∨ i ∈ s'.timedOut := by
+  obtain ⟨s', hrun, hall⟩ := drain_all (tbl := tbl) (locked := true) s ht hr
+  refine ⟨s', hrun, ?_⟩
+  have hreach := reachable_of_run (drainLabels s) s s' 0 h hrun
+  have hacc := (reachable_acc hreach).acc
+  have hk := run_close_kept (drainLabels s) s s' 0 (drainLabels_close s) hrun
+  obtain ⟨ha, hp, hq, hrel, _⟩ := hall
+  intro i hi
+  have := hacc i hi
+  simp only [whereabouts, ha, hp, hq, hrel, hk.txHold, hk.rxSet, hk.rxHold, h1, h2, h3, List.map_nil,
+    Option.toList_none, List.nil_append, List.mem_append] at this
+  exact this
+
+end
+
+/-- non-vacuity of `disconnect_leaves_nobody_waiting`: its hypotheses hold in a state with a filed (and timed-out), a
+parked and a queued request, and afterwards all three callers are accounted for -/
+example : checkRun request2reply true
+    [.put (rd "m:p"), .put (rd "m:p"), .put (rd "m:q"), .txGet, .txTest false, .txApply, .txSend, .txGet, .txTest true,
+     .txApply, .timeout 0]
+    (fun s => s.txTest.isNone && s.relHold.isEmpty && s.txHold.isNone && s.rxSet.isNone && s.rxHold.isEmpty
+      && s.nextId == 3 && s.active.length == 1 && s.pending.length == 1 && s.txq.length == 1 &&
+      match run request2reply true s (drainLabels s) 0 with
+      | .ok s' => [0, 1, 2].all (fun i => s'.released.contains i || s'.timedOut.contains i)
+      | .error _ => false) = true := by
+  decide +kernel
 
 /-- non-vacuity: a concrete reachable state with one request filed and transmitted, one parked, one queued -/
 example : checkRun request2reply true
@@ -277,6 +356,38 @@ example : (Frappy.Client.Shutdown.run {} [.rx false, .drop, .rx true, .rx false,
       .rx false, .user .d2, .user .d3, .user .d4]).map
     (fun s => allDone (runGreedy 300 s) && !allDone s) = some true := by
   decide +kernel
+
+end
+
+/-! ## the connection object -/
+
+section
+open Frappy.Client.Conn
+
+/-- What the client relies on holds for the model of `AsynTcp`, for every order of calls by the client's threads and
+every behaviour of the peer (lines, orderly close, reset — at any point): `shutdown()` and `disconnect()` never raise;
+`readline()` raises nothing but `ConnectionClosed`, that only on an ended connection, returns only the next unread line
+the peer sent, and on a dead connection does raise `ConnectionClosed`; `send()` after `shutdown()` fails.
+(The tie of this model to the code is the replay of real `AsynTcp` objects on loopback sockets, and of the scripted
+`FakeConn` the scheduler runs use, on `Conn.run`.) -/
+theorem conn_contract (evs : List Ev) (s : St) (h : Frappy.Client.Conn.run {} evs 0 = .ok s) : ConnContract evs :=
+  contract_of_run evs {} s {} 0 rel_init h
+
+/-- non-vacuity: the peer sends a line and resets the connection; the line is still read, then `ConnectionClosed`;
+`shutdown()` on the dead socket returns, sending fails, `disconnect()` and a second `shutdown()` return -/
+example : (match Frappy.Client.Conn.run {} [.peerSend, .peerRst, .call .readline (.line 0), .call .readline .closed,
+      .call .shutdown .ok, .call .send .connErr, .call .disconnect .ok, .call .shutdown .ok] 0 with
+    | .ok s => s.gone && s.eof && s.read == 1
+    | .error _ => false) = true := by
+  decide
+
+/-- the monitor is sensitive to what it is there for: a `shutdown()` that raises on a reset connection is not a trace
+of the model and breaks the contract at that call -/
+example : (match Frappy.Client.Conn.run {} [.peerRst, .call .readline .closed, .call .shutdown (.otherErr "OSError")] 0 with
+      | .error i => i == 2
+      | .ok _ => false) = true
+    ∧ connFirstBad {} [.peerRst, .call .readline .closed, .call .shutdown (.otherErr "OSError")] 0 = some 2 := by
+  decide
 
 end
 
